@@ -5,9 +5,11 @@
 package drv
 
 import (
+	"bytes"
 	"errors"
 	"fmt"
 	"math/rand"
+	"sort"
 	"time"
 
 	badger "github.com/dgraph-io/badger/v4"
@@ -51,6 +53,12 @@ type World struct {
 	NonMonotonic bool
 	// PerKeyMonotone restricts NonMonotonic so that a key is never written below its newest version.
 	PerKeyMonotone bool
+	// Locality > 0: the keys of random commits come from a window of that many consecutive keys (in
+	// sorted order) which moves at every flush, so that L0 tables cover different, partly
+	// overlapping key ranges (the compaction pickers reason about ranges).
+	Locality int
+	winLo    int
+	sorted   [][]byte
 }
 
 // Open opens a DB for the driver (no background compactors).
@@ -185,6 +193,13 @@ func (w *World) RandomCommit(delFrac, expFrac float64) error {
 	}
 	for i := 0; i < n; i++ {
 		k := w.Keys[w.R.Intn(len(w.Keys))]
+		if w.Locality > 0 {
+			if w.sorted == nil {
+				w.sorted = append([][]byte{}, w.Keys...)
+				sort.Slice(w.sorted, func(i, j int) bool { return bytes.Compare(w.sorted[i], w.sorted[j]) < 0 })
+			}
+			k = w.sorted[(w.winLo+w.R.Intn(w.Locality))%len(w.sorted)]
+		}
 		if seen[string(k)] {
 			continue
 		}
@@ -225,6 +240,14 @@ func (w *World) Flush() bool {
 	}
 	if ok {
 		w.log("flush -> L0 %v", w.DB.VerifLevelOrder(0))
+	}
+	if w.Locality > 0 {
+		w.winLo = w.R.Intn(len(w.Keys))
+		if w.R.Intn(3) == 0 { // sometimes a wide table spanning the others
+			w.Locality = 2 + w.R.Intn(len(w.Keys))
+		} else {
+			w.Locality = 2 + w.R.Intn(4)
+		}
 	}
 	return ok
 }
@@ -363,6 +386,24 @@ func (w *World) CloseSnapshot() {
 	w.Snaps[i].Txn.Discard()
 	w.log("close snapshot readTs=%d", w.Snaps[i].ReadTs)
 	w.Snaps = append(w.Snaps[:i], w.Snaps[i+1:]...)
+}
+
+// AdvanceWatermark (normal mode, no open snapshot) runs an empty read transaction so that the read
+// watermark - the discard timestamp of compactions - reaches the newest commit, and waits for it.
+func (w *World) AdvanceWatermark() bool {
+	if w.Managed || len(w.Snaps) > 0 {
+		return false
+	}
+	want := w.DB.VerifNextTxnTs() - 1
+	_ = w.DB.View(func(*badger.Txn) error { return nil })
+	deadline := time.Now().Add(2 * time.Second)
+	for time.Now().Before(deadline) {
+		if w.DB.VerifDiscardTs() >= want {
+			return true
+		}
+		time.Sleep(200 * time.Microsecond)
+	}
+	return false
 }
 
 // SettleWatermark waits (bounded) until the asynchronous read watermark has caught up with the
